@@ -90,6 +90,11 @@ pub enum ValueClass {
     Extreme,
     /// some NaN / inf components
     NonFinite,
+    /// a tight cluster far from the origin with ~1 % outliers on the other side of the origin: split
+    /// planes (which ignore the bias when assigning sides) are > 99 % imbalanced without being one-sided
+    FarCluster,
+    /// the same with ~6 % outliers at varied angles: every attempt is 95-99 % imbalanced
+    FarClusterMixed,
 }
 
 #[derive(Clone, Debug, PartialEq, Eq, Hash, Serialize, Deserialize)]
